@@ -298,7 +298,19 @@ class SymRun:
             "readM": ("read", 0, 1, 0, 0, rd(M)),
             "readN": ("read", 0, 2, 0, 0, rd(N)),
             "commit": ("set_if_equals", 1, 0, 0, 0, commit),
+            # the command-level conditional update / delete (dulwich update-ref): a refusal is a ValueError
+            "pdelM1": ("remove_if_equals", 0, 1, 1, 0, lambda: self._porc(r, M, None, k[1])),
+            "pupdM15": ("set_if_equals", 0, 1, 1, 5, lambda: self._porc(r, M, k[5], k[1])),
         }
+
+    @staticmethod
+    def _porc(r, name, new, old):
+        from dulwich import porcelain
+        try:
+            porcelain.update_ref(r, name, new, old_value=old)
+            return 1
+        except ValueError:
+            return 0
 
     def actor(self, a, names):
         def body():
@@ -356,7 +368,7 @@ class SymRun:
 def sym_combos(ctx):
     two = [("casH13", "symN"), ("setH4", "symN"), ("commit", "symN"), ("readH", "symN"), ("casH23", "symN"),
            ("casH13", "casM15"), ("commit", "setM5"), ("commit", "commit"), ("link", "symN"), ("casH13", "rmM"),
-           ("setH4", "rmM")]
+           ("setH4", "rmM"), ("pdelM1", "setM5"), ("pdelM1", "casM15"), ("pupdM15", "setM3"), ("pdelM1", "pupdM15")]
     seq2 = [(("readH",), ("symN", "setM3")), (("readH", "readH"), ("symN", "setN5")), (("casH34",), ("symN", "setM3")),
             (("commit",), ("symN", "setM5")), (("link", "readH"), ("symN", "symM")), (("readH",), ("setM3", "symN"))]
     three = [("casH34", "symN", "setM3"), ("commit", "symN", "casN25"), ("readH", "symN", "setM3"), ("casH13", "symN", "symM"),
